@@ -46,12 +46,12 @@ ANY_SCHEMAS = [
     "schema.any(schema.dict({'a': schema.int, ...: ...}), schema.none)", "schema.alias('n', schema.int)",
     "schema.alias('d', schema.dict({'a': schema.int, optional('b'): schema.str}))", "schema.alias('l', schema.list(schema.int))",
 ]
-SCALAR_VALUES = ["0", "1", "-1", "'x'", "''", "None", "True", "1.5", "b'b'", "object()", "(1,)", "{1}"]
+SCALAR_VALUES = ["{...: 1}", "0", "1", "-1", "'x'", "''", "None", "True", "1.5", "b'b'", "object()", "(1,)", "{1}"]
 LIST_VALUES = ["[]", "[1]", "[1, 'x']", "['x', 1]", "[1, 2]", "[1, 2, 3]", "[0, 1, 'x', 2]", "['a', 1, 'x']", "[1, 'x', 'y']",
                "[{'a': 1}]", "[{'a': 1, 'b': 'q'}]", "[{'a': 'bad'}]", "[{'a': 1, 'zz': 0}]", "[{}]", "[[1], [2, 3]]", "[[1, 'x']]",
                "[object()]", "[1, object()]", "[{1: object()}]", "[-1]", "[None]", "[[1, 2], 5]", "[5, [1, 2], 6]", "[{'a': 1}, 3]",
                "[3, {'a': 1}, 4]", "[...]", "[1, ...]", "[..., 1]", "[..., 1, ...]", "[1, ..., 'x']", "(1, 2)", "'ab'"]
-DICT_VALUES = ["{'a': 'AB-12', 'b': 'xy'}", "{'a': 5, 'b': 'axb'}", "{}", "{'a': 1}", "{'a': 1, 'b': 'x'}", "{'b': 'x'}", "{'a': 'bad'}", "{'a': 1, 'zz': 0}", "{'zz': 0}", "{'a': {'x': 1}}",
+DICT_VALUES = ["{'a': {...: 1}}", "{'q': {...: ...}}", "{'a': [{...: 1}]}", "{'a': 'AB-12', 'b': 'xy'}", "{'a': 5, 'b': 'axb'}", "{}", "{'a': 1}", "{'a': 1, 'b': 'x'}", "{'b': 'x'}", "{'a': 'bad'}", "{'a': 1, 'zz': 0}", "{'zz': 0}", "{'a': {'x': 1}}",
                "{'a': {'x': 1, 'y': 'q'}, 'b': 2}", "{'a': {}}", "{'a': {'x': 1, 'q': 0}}", "{'a': {'x': 'bad'}}", "{'a': [1, 2], 'b': ['s']}",
                "{'a': [1, 'x']}", "{'a': 1, 'b': 1.04}", "{'a': 1, 'b': 1.0}", "{1: 5, None: 's'}", "{1: 5}", "{'a': object()}",
                "{'q': object()}", "{'a': {'x': object()}}", "{'c': None}", "{'a': 1, ...: ...}", "{'a': ...}", "{...: ...}",
